@@ -1,2 +1,85 @@
+//! Calendar scenarios: build a calendar (built-in by name, explicit Cal, UnionCal, NamedCal string) and run a list of
+//! date operations.  Dates travel as day numbers since 1970-01-01.
+use chrono::{Datelike, NaiveDate, NaiveDateTime};
+use rateslib::calendars::{get_calendar_by_name, Cal, CalType, DateRoll, Modifier, NamedCal, RollDay, UnionCal};
 use serde_json::{json, Value};
-pub fn run(sc: &Value) -> Value { json!({"error": format!("unknown scenario {}", sc["kind"])}) }
+use std::panic::{catch_unwind, AssertUnwindSafe};
+
+pub fn dt(n: i64) -> NaiveDateTime {
+    NaiveDate::from_num_days_from_ce_opt((719163 + n) as i32).expect("date").and_hms_opt(0, 0, 0).unwrap()
+}
+pub fn dn(d: &NaiveDateTime) -> i64 { d.date().num_days_from_ce() as i64 - 719163 }
+
+fn cal(v: &Value) -> Result<Cal, String> {
+    match v["type"].as_str().unwrap() {
+        "builtin" => get_calendar_by_name(v["name"].as_str().unwrap()).map_err(|e| { std::mem::forget(e); "err".to_string() }),
+        "cal" => Ok(Cal::new(v["holidays"].as_array().unwrap().iter().map(|x| dt(x.as_i64().unwrap())).collect(),
+                             v["weekmask"].as_array().unwrap().iter().map(|x| x.as_u64().unwrap() as u8).collect())),
+        _ => Err("not a Cal".into()),
+    }
+}
+pub fn caltype(v: &Value) -> Result<CalType, String> {
+    match v["type"].as_str().unwrap() {
+        "builtin" | "cal" => Ok(CalType::Cal(cal(v)?)),
+        "union" => {
+            let cs: Result<Vec<Cal>, String> = v["cals"].as_array().unwrap().iter().map(cal).collect();
+            let ss = if v["settle"].is_null() { None } else {
+                let s: Result<Vec<Cal>, String> = v["settle"].as_array().unwrap().iter().map(cal).collect(); Some(s?) };
+            Ok(CalType::UnionCal(UnionCal::new(cs?, ss)))
+        }
+        "named" => NamedCal::try_new(v["name"].as_str().unwrap()).map(CalType::NamedCal).map_err(|e| { std::mem::forget(e); "err".to_string() }),
+        _ => Err("calspec".into()),
+    }
+}
+fn modifier(s: &str) -> Modifier { match s { "Act" => Modifier::Act, "F" => Modifier::F, "ModF" => Modifier::ModF, "P" => Modifier::P, _ => Modifier::ModP } }
+fn rollday(v: &Value) -> RollDay {
+    match v["kind"].as_str().unwrap_or("Unspecified") { "Int" => RollDay::Int { day: v["day"].as_u64().unwrap() as u32 }, "EoM" => RollDay::EoM {}, "SoM" => RollDay::SoM {}, "IMM" => RollDay::IMM {}, _ => RollDay::Unspecified {} }
+}
+
+fn one(c: &CalType, op: &Value) -> Value {
+    let d = op.get("date").and_then(|x| x.as_i64()).map(dt);
+    let st = op["settlement"].as_bool().unwrap_or(false);
+    let days = op["days"].as_i64().unwrap_or(0) as i8;
+    match op["op"].as_str().unwrap() {
+        "is_weekday" => json!(c.is_weekday(&d.unwrap())),
+        "is_holiday" => json!(c.is_holiday(&d.unwrap())),
+        "is_bus_day" => json!(c.is_bus_day(&d.unwrap())),
+        "is_settlement" => json!(c.is_settlement(&d.unwrap())),
+        "roll" => json!(dn(&c.roll(&d.unwrap(), &modifier(op["modifier"].as_str().unwrap()), st))),
+        "add_days" => json!(dn(&c.add_days(&d.unwrap(), days, &modifier(op["modifier"].as_str().unwrap()), st))),
+        "lag" => json!(dn(&c.lag(&d.unwrap(), days, st))),
+        "add_bus_days" => match c.add_bus_days(&d.unwrap(), days, st) { Ok(x) => json!(dn(&x)), Err(e) => { std::mem::forget(e); json!({"err": true}) } },
+        "add_months" => json!(dn(&c.add_months(&d.unwrap(), op["months"].as_i64().unwrap() as i32, &modifier(op["modifier"].as_str().unwrap()), &rollday(&op["roll"]), st))),
+        "bus_date_range" => match c.bus_date_range(&d.unwrap(), &dt(op["end"].as_i64().unwrap())) {
+            Ok(v) => json!(v.iter().map(dn).collect::<Vec<i64>>()), Err(e) => { std::mem::forget(e); json!({"err": true}) } },
+        "cal_date_range" => match c.cal_date_range(&d.unwrap(), &dt(op["end"].as_i64().unwrap())) {
+            Ok(v) => json!(v.iter().map(dn).collect::<Vec<i64>>()), Err(e) => { std::mem::forget(e); json!({"err": true}) } },
+        _ => json!({"error": "op"}),
+    }
+}
+
+pub fn run(sc: &Value) -> Value {
+    if sc["kind"].as_str() == Some("cal_eq") {
+        let (a, b) = (caltype(&sc["a"]), caltype(&sc["b"]));
+        return match (a, b) {
+            (Ok(a), Ok(b)) => {
+                let r = match (&a, &b) {
+                    (CalType::UnionCal(x), CalType::Cal(y)) => x == y, (CalType::UnionCal(x), CalType::UnionCal(y)) => x == y, (CalType::UnionCal(x), CalType::NamedCal(y)) => x == y,
+                    (CalType::NamedCal(x), CalType::Cal(y)) => x == y, (CalType::NamedCal(x), CalType::UnionCal(y)) => x == y, (CalType::NamedCal(x), CalType::NamedCal(y)) => x == y,
+                    (CalType::Cal(x), CalType::UnionCal(y)) => x == y, (CalType::Cal(x), CalType::NamedCal(y)) => x == y, (CalType::Cal(x), CalType::Cal(y)) => x == y,
+                };
+                json!({"eq": r})
+            }
+            _ => json!({"err": true}),
+        };
+    }
+    match caltype(&sc["cal"]) {
+        Err(_) => json!({"err": true}),
+        Ok(c) => {
+            let outs: Vec<Value> = sc["ops"].as_array().unwrap().iter().map(|op| {
+                match catch_unwind(AssertUnwindSafe(|| one(&c, op))) { Ok(v) => v, Err(_) => json!({"panic": true}) }
+            }).collect();
+            json!({"results": outs})
+        }
+    }
+}
